@@ -36,7 +36,7 @@ Definition tbl_req (names : bool) (sec : N) (res : bool) : request :=
 Definition tree_secret_isvalid : bool :=
   negb (existsb (fun row => let '((c, names, sec, res, st), acc) := row in
                             N.eqb c 2 && names && N.eqb sec 1 && negb res && N.eqb st 1 && acc) validator_table).
-Definition tree_validator_variant : variant := {| v_validate_first := true; v_secret_isvalid := tree_secret_isvalid |}.
+Definition tree_validator_variant : variant := {| v_validate_first := true; v_secret_isvalid := tree_secret_isvalid; v_wait_agree := true |}.
 Definition validator_row_ok (row : (N * bool * N * bool * N) * bool) : bool :=
   let '((c, names, sec, res, st), acc) := row in
   Bool.eqb (validate tree_validator_variant (tbl_db st) (tbl_client c) (tbl_req names sec res)) acc.
